@@ -464,12 +464,65 @@ fn main() {
         Some("probe") => {
             // many boundary valuations of one const-free program: AstVm before vs after simplification
             let text = std::fs::read_to_string(&args[2]).expect("read");
+            // (a) every const against the run-time evaluation of its own definition: `const T Ck = e;` gets the extra
+            //     call arguments `Ck` and `e`; after simplification the first is the cached const value, and AstVm
+            //     evaluates the second, unsimplified, at run time
+            {
+                let mut consts: Vec<(bool, String, String)> = vec![];
+                for st in text.split(';') {
+                    let st = st.trim();
+                    for (kw, is_int) in [("const int ", true), ("const float ", false)] {
+                        if let Some(rest) = st.strip_prefix(kw) {
+                            if let Some((name, def)) = rest.split_once(" = ") { consts.push((is_int, name.trim().to_string(), def.trim().to_string())); }
+                        }
+                    }
+                }
+                if !consts.is_empty() {
+                    let mut extra = String::from("\nscript zzprobe {\n");
+                    for (is_int, name, def) in &consts {
+                        let ins = if *is_int { "ins_900" } else { "ins_901" };
+                        extra.push_str(&format!("    {}({});\n    {}(({}));\n", ins, name, ins, def));
+                    }
+                    extra.push_str("}\n");
+                    let text2 = format!("{}{}", text, extra);
+                    let r2 = run_vm(&text2, &[], 0);
+                    if std::env::var("VERIF_DEBUG").is_ok() { eprintln!("probe program:\n{}\n-> {:?}", text2, r2.as_ref().map(|r| (r.1.len(), r.2.len()))); }
+                    if let Some((_, before, after)) = r2 {
+                        if after.len() == before.len() && before.len() >= 2 * consts.len() {
+                            let base = before.len() - 2 * consts.len();
+                            for (k, (_, name, def)) in consts.iter().enumerate() {
+                                if std::env::var("VERIF_DEBUG").is_ok() { eprintln!("const {}: cached {:?} run-time {:?}", name, after[base + 2 * k], before[base + 2 * k + 1]); }
+                                // the definition names other consts (AstVm cannot read those): compare with the value the
+                                // simplifier gives the same expression written inline
+                                if let (Ok(cached), Err(_), Ok(inline)) = (&after[base + 2 * k], &before[base + 2 * k + 1], &after[base + 2 * k + 1]) {
+                                    if !same_value(cached, inline) {
+                                        println!("ORACLE-FAIL\tconst {} = {} has the value {:?}, the same expression written inline is simplified to {:?}\t{}", name, def, cached, inline, text.replace('\n', " "));
+                                        return;
+                                    }
+                                }
+                                if let (Ok(cached), Ok(runtime)) = (&after[base + 2 * k], &before[base + 2 * k + 1]) {
+                                    if !same_value(cached, runtime) {
+                                        println!("ORACLE-FAIL\tconst {} = {} has the compile-time value {:?} but its definition evaluates to {:?} at run time\t{}", name, def, cached, runtime, text.replace('\n', " "));
+                                        return;
+                                    }
+                                }
+                            }
+                        }
+                    }
+                }
+            }
+            let has_consts = text.contains("const int ") || text.contains("const float ");
             for _ in 0..200 {
                 let mut regs = vec![];
                 for &ir in &INT_REGS { regs.push((ir, ScalarValue::Int(*rng.pick(&INT_GRID)))); }
                 for &fr in &FLOAT_REGS { let mut b = *rng.pick(&FLOAT_GRID); if f32::from_bits(b).is_nan() { b = 0xbf800000; } regs.push((fr, ScalarValue::Float(f32::from_bits(b)))); }
                 let diff = rng.below(4) as u32;
                 if let Some((_, before, after)) = run_vm(&text, &regs, diff) {
+                    // (b) a const-free program that the simplifier rejects although every argument evaluates at run time
+                    if !has_consts && after.is_empty() && !before.is_empty() && before.iter().all(|b| b.is_ok()) {
+                        println!("ORACLE-FAIL\tconstant simplification rejects a program all of whose expressions evaluate at run time: {:?} regs {:?} diff {}\t{}", before, regs, diff, text.replace('\n', " "));
+                        return;
+                    }
                     for idx in 0..before.len() {
                         if let (Ok(b), Some(a)) = (&before[idx], after.get(idx)) {
                             match a { Ok(a) if same_value(a, b) => {}, other => { println!("ORACLE-FAIL\tsimplified expression evaluates differently: before {:?} after {:?} regs {:?} diff {}\t{}", b, other, regs, diff, text.replace('\n', " ")); return; } }
